@@ -316,6 +316,25 @@ int main(int argc, char** argv) {
             }
         }
     }
+    // ---- remaining entry points at their boundaries
+    for (int a : rel) {
+        for (int b : rel) {
+            CASE("mse", {a, b}, [=] { g_sink = mse(R(a), R(b, 1)) + mse(C(a), C(b, 1)); });
+            CASE("concatenate", {a, b}, [=] { sink(concatenate(R(a), R(b), R(0), R(a), R(b))); sink(concatenate(C(b), C(0), C(a))); sink(flip(R(a))); sink(flip(C(b))); });
+            if (a >= 1) {
+                if (b < a) CASE("iscola", {a, b}, [=] { g_sink = iscola(window::hann(a, false), b) + iscola(window::hamming(a), b, OverlapMethod::Wola); });
+                CASE("downsample_phase", {a, b}, [=] { if (b >= 1) { sink(downsample(R(a), b, b)); sink(downsample(R(a), b, a + 3)); sink(upsample(R(a), b, b)); sink(upsample(R(a), b, b + 5)); } });
+                CASE("polyphase", {a, b}, [=] { if (b >= 1) { auto pp = IResampler::polyphase(R(a), b, 1.0, true); g_sink = (double)pp.size(); } });
+                CASE("randgen", {a, b}, [=] { sink(randn(b)); sink(dsplib::rand(b)); auto ri = randi({-a, a}, b); g_sink = ri.size(); auto r2 = randi(a, b); g_sink += r2.size(); });
+                CASE("to_complex", {a, b}, [=] { std::vector<double> v(b, 1.5); sink(to_complex(v)); sink(to_real(v)); g_sink = (double)from_complex<float>(C(a)).size() + from_real<int>(R(a)).size(); });
+                CASE("arange_len", {a, b}, [=] { sink(arange(a, b, 1)); sink(arange(b, a, -1)); sink(arange((double)a, (double)b, 0.5)); sink(arange(b)); });
+            }
+        }
+    }
+    // (a zero step of arange and an overlap >= the window length for iscola are numeric parameters outside their documented
+    // ranges - division by zero on the unchanged tree - and are not part of C05's precondition)
+    CASE("arange_wrongway", {0}, [=] { sink(arange(0, 5, -1)); sink(arange(5.0, 0.0, 0.25)); });
+    CASE("from_file_missing", {0}, [=] { sink(from_file("/nonexistent/dir/no-such-file.bin")); });
     CASE("medianfilter_small", {2}, [=] { MedianFilter m(2); });
     CASE("downsample0", {0}, [=] { sink(downsample(R(5), 0)); });
     CASE("upsample0", {0}, [=] { sink(upsample(R(5), 0)); });
